@@ -13,7 +13,10 @@ class Deadlock(Exception):
 
 
 class Scheduler:
-    def __init__(self, choices: list, timeout: float = 10.0):
+    def __init__(self, choices: list, timeout: float = 10.0, trace_prefix: str = None):
+        # trace_prefix: every source line executed in files under that directory is a yield point (sys.settrace
+        # in the scheduled threads): preemption anywhere in the library, not only at the injected points
+        self.trace_prefix = trace_prefix
         self.choices = list(choices)
         self.ci = 0
         self.cond = threading.Condition()
@@ -27,11 +30,12 @@ class Scheduler:
         self.failed = None
         self.seg_thread, self.seg_left = None, 0
         self.step, self.last_run = 0, {}
+        self.pending_after = None
         # replays saved before the segment form existed used a round-robin tail
-        self.legacy_tail = bool(self.choices) and all(isinstance(c, int) for c in self.choices)
+        self.legacy_tail = bool(self.choices) and all(isinstance(c, int) and not isinstance(c, bool) for c in self.choices)
 
     # -- called by the threads ------------------------------------------------------------
-    def _pick(self, me, must_leave=False):
+    def _pick(self, me, must_leave=False, tag=None):
         """Next thread to run.  A choice is either an int (one step: thread = choice mod runnable) or
         a pair [thread, n] (the chosen thread keeps the baton for n yield points); once the choices
         are used up the running thread keeps the baton until it ends (non-preemptive tail), then
@@ -40,13 +44,33 @@ class Scheduler:
         if not runnable:
             return None
         nxt = None
-        if self.seg_left > 0 and self.seg_thread in runnable:
+        if self.pending_after is not None and me in runnable:
+            # ["after", tag, k, t]: the running thread goes on until it passes a yield point whose tag starts with
+            # `tag`, then k more yield points, then the baton goes to thread t (dropped if the thread ends first)
+            tag_, k_, t_ = self.pending_after
+            if tag_ is not None and tag is not None and tag.startswith(tag_):
+                self.pending_after = [None, k_, t_]
+                tag_ = None
+            if tag_ is None:
+                if k_ <= 0:
+                    self.pending_after = None
+                    nxt = runnable[t_ % len(runnable)]
+                else:
+                    self.pending_after = [None, k_ - 1, t_]
+                    nxt = me
+            else:
+                nxt = me
+        elif self.seg_left > 0 and self.seg_thread in runnable:
             self.seg_left -= 1
             nxt = self.seg_thread
         elif self.ci < len(self.choices):
+            self.pending_after = None
             c = self.choices[self.ci]
             self.ci += 1
-            if isinstance(c, (list, tuple)):
+            if isinstance(c, (list, tuple)) and c and c[0] == "after":
+                self.pending_after = [c[1], int(c[2]), int(c[3])]
+                nxt = me if me in runnable else runnable[0]
+            elif isinstance(c, (list, tuple)):
                 nxt = runnable[c[0] % len(runnable)]
                 self.seg_thread, self.seg_left = nxt, max(int(c[1]) - 1, 0)
             else:
@@ -69,7 +93,7 @@ class Scheduler:
         if me is None:  # not one of the scheduled threads (harness itself)
             return
         with self.cond:
-            nxt = self._pick(me, must_leave=tag.endswith(".wait"))
+            nxt = self._pick(me, must_leave=tag.endswith(".wait"), tag=tag)
             self.trace.append((me, tag, nxt))
             if nxt != me:
                 self.switches += 1
@@ -83,8 +107,21 @@ class Scheduler:
                 self.failed = Deadlock(f"thread {me} waited {self.timeout}s for its turn; trace tail {self.trace[-6:]}")
                 raise self.failed
 
+    def _tracer(self, frame, event, arg):
+        if event == "call" and frame.f_code.co_filename.startswith(self.trace_prefix):
+            return self._line_tracer
+        return None
+
+    def _line_tracer(self, frame, event, arg):
+        if event == "line":
+            self.yield_point("line")
+        return self._line_tracer
+
     def _body(self, idx: int, fn: Callable[[], Any], results: list):
         self.local.idx = idx
+        if self.trace_prefix:
+            import sys
+            sys.settrace(self._tracer)
         try:
             try:
                 with self.cond:
